@@ -14,7 +14,7 @@ from __future__ import annotations
 import random
 
 from .. import tablekit as tk
-from .c11 import Gen
+from .c11 import C11, Gen
 
 POOL = [("a", "int"), ("b", "flt"), ("s", "str"), ("k", "bool"), ("t", "time"), ("tracked_since", "flt"),
         ("untracked", "bool"), ("is_tracked", "bool"), ("n2", "int")]
@@ -84,7 +84,41 @@ class C12(tk.TableProp):
                     ops2.append({"a": "upd", "view": w, "form": "D", "rows": [1], "cols": [["a", "flt", ["f1/1"]]], "kind": "dtype", "move": "rejected-in-between"})
                 ops2.append(dict(g1, mutate=False, move="repeat:read"))
         out.append({"comps": [{"name": "pop", "cols": cols, "views": views}], "pop": 3, "init": init, "steps": 0, "ops": ops2, "seeds": [1, 2]})
+        out.append(self.range_boundary(cols, views))
         return out
+
+    @staticmethod
+    def range_boundary(cols, views):
+        """lesson 14: every shape of range OBJECT (reversed everybody, reversed prefix, strided, descending to 0 / above 0, one
+        label, nobody; C11.RANGES) as the request of a read through every kind of view (plain, with the tracked column, whole
+        table, queries that do / do not mention tracked, sub-views), with and without an extra query, simulants 0 and 3
+        untracked; the same for objects sliced from the framework's own population index; from a listener: `event.index[::-1]`"""
+        init = {"pop": [{"a": "upd", "view": 1, "form": "D", "rows": list(range(7)), "ikind": "range", "catch": False,
+                         "cols": [["a", "int", [f"i{k}" for k in range(7)]],
+                                  ["tracked_since", "flt", ["f1/1", "f2/0", "f0/0", "n", "f7/2", "f1/0", "f3/0"]]]}]}
+        ops = [{"a": "upd", "view": 0, "form": "S", "rows": [3, 0], "ikind": "range", "cols": [["tracked", "bool", ["b0", "b0"]]]},
+               {"a": "sub", "id": 20, "parent": 5, "cols": ["a"]}, {"a": "sub", "id": 21, "parent": 3, "cols": ["a"], "as_str": True},
+               {"a": "sub", "id": 22, "parent": 6, "cols": ["tracked_since", "a"]}]
+        handles = [1, 2, 3, 4, 5, 6, 7, 8, 20, 21, 22]
+        extras = [["T"], ["a", "a", "ne", "i4"], ["a", "tracked_since", "ge", "f1/1"]]
+        k = 0
+        for rows, ik, rs in C11.RANGES:
+            for v in handles:
+                k += 1
+                if len(rows) > 1 or k % 3 == 0:
+                    ops.append({"a": "get", "view": v, "idx": rows, "ikind": ik, "rspec": rs, "q": extras[k % 3], "noq": bool(k % 2), "kw": k % 5 == 0,
+                                "mutate": k % 4 == 0})
+        for sl in ([[None, None, -1]], [[None, 4, None], [None, None, -1]], [[None, None, 2]], [[None, None, -3]], [[None, None, -1], [None, None, 2]],
+                   [[5, None, -2]], [[None, 0, None]], [[None, 1, None], [None, None, -1]]):
+            for v in (2, 5, 6, 8, 22):
+                k += 1
+                ops.append({"a": "get", "view": v, "idx": {"from": ["pop", "pop-tracked"][k % 2], "slices": sl}, "q": extras[k % 3]})
+        ops += [{"a": "get", "view": 6, "idx": [5, 6, 7], "ikind": "range", "q": ["T"]}, {"a": "get", "view": 2, "idx": [1, 0, -1], "ikind": "range", "q": ["T"]}]
+        hooks = {f"0:{ph}:pop": [{"a": "get", "view": v, "idx": {"from": "event", "slices": sl}, "q": ["T"]}
+                                 for v in (2, 6) for sl in ([[None, None, -1]], [[None, 3, None], [None, None, -1]], [[None, None, 2]])]
+                 for ph in ("time_step", "collect_metrics")}
+        return {"comps": [{"name": "pop", "cols": cols, "views": views}], "pop": 7, "init": init, "steps": 1, "hooks": hooks, "ops": ops,
+                "seeds": [1, 2]}
 
     def generate(self, rng, i, tier):
         return self._gen(rng, tier)
